@@ -83,7 +83,46 @@ def _range_guarded(fn, b, idx_op):
     if not seeds:
         return False
     pos, neg, _ = test_edges(fn, seeds)
-    return bool(pos) and guarded(fn, b, pos)
+    if not (pos and guarded(fn, b, pos)):
+        return False
+    # a two-sided range with a container-derived start also needs start <= end on the dominating path
+    if len(comps) == 2 and comps[0][0] in ('c', 'm') and arith.const_int(fn, comps[0]) is None and _cast_derived(fn, comps[0][1][0]):
+        sl = _root(fn, comps[0][1][0])
+        el = _root(fn, bl)
+        if sl == el:
+            return True
+        # end computed from start by additions (end >= start by construction)
+        if sl in {_root(fn, x) for x in _backward_locals(fn, bl)}:
+            return True
+
+        def pred2(op, a, c, bb):
+            if op not in ('Gt', 'Ge', 'Lt', 'Le'):
+                return None
+            la = _root(fn, a[1][0]) if a[0] in ('c', 'm') else None
+            lc = _root(fn, c[1][0]) if c[0] in ('c', 'm') else None
+            if la == sl and lc == el:
+                return op in ('Lt', 'Le')       # start <= end holds on the true edge
+            if la == el and lc == sl:
+                return op in ('Gt', 'Ge')
+            return None
+        seeds2 = compare_seeds(fn, pred2)
+        if not seeds2:
+            return False
+        pos2, neg2, _ = test_edges(fn, seeds2)
+        return bool(pos2) and guarded(fn, b, pos2)
+    return True
+
+
+def _cast_derived(fn, l):
+    """the value was obtained by casting a narrower/wider stored integer (u8..u64, i32, i64) to the index type:
+    container integers are stored as fixed-width fields and cast to usize for indexing, loop counters and lengths are not"""
+    for x in _backward_locals(fn, l):
+        for (db, dk, rv) in fn.defs.get(x, []):
+            if dk == 'A' and rv[0] == 'cast':
+                st = arith.op_type(fn, rv[2])
+                if st in ('u8', 'u16', 'u32', 'u64', 'i32', 'i64', 'i16'):
+                    return True
+    return False
 
 
 def _root(fn, l, depth=0):
@@ -111,6 +150,8 @@ def _backward_locals(fn, l, depth=0, seen=None):
                 ops = [rv[2]]
             elif rv[0] == 'bin' and rv[1] in ('Add', 'AddWithOverflow'):
                 ops = [rv[2], rv[3]]
+            elif rv[0] == 'agg' and 'ops::range::Range' in rv[1]:
+                ops = list(rv[2])
         elif dk == 'C':
             nm = fn.call_name(db) or ''
             if re.search(r'::(checked_add|saturating_add)$|Try>::branch$|(Option|Result)::<.*>::(ok_or|ok_or_else|unwrap|expect|map_err)$', nm):
@@ -309,6 +350,8 @@ def run(ctx):
         else:
             r6.bad('encoder-validates', 'the encoder no longer validates the module it builds', loc=fn.loc(0))
 
+    rule_r9(ctx)
+
     # ------------------------------------------------------------------ R7
     r7 = ctx.rule('C11.R7', 'container-derived indexes never reach a panicking index operation (use .get)', floor=20, floor_what='index sites on the decode side')
     for k in sorted(fx.fns):
@@ -333,13 +376,13 @@ def run(ctx):
                 continue
             if t is None:
                 t = tainted_locals(fn, SRC_ANY, FLD)
-            tainted = idx_op[0] in ('c', 'm') and idx_op[1][0] in t
+            tainted = idx_op[0] in ('c', 'm') and (idx_op[1][0] in t or _cast_derived(fn, idx_op[1][0]))
             if tainted and _range_guarded(fn, b, idx_op):
                 r7.ok('%s|%s' % (short, kind), loc=fn.loc(b), detail='range bound compared against the slice length on the dominating path')
             elif tainted and (short.split('|')[0], kind) in R7_REVIEWED and _guarded_by_ok_of(fn, b, R7_REVIEWED[(short, kind)][0]):
                 r7.excepted('%s|%s' % (short, kind), R7_REVIEWED[(short, kind)][1], loc=fn.loc(b))
             elif tainted:
-                r7.bad('%s|%s' % (short, kind), 'a container-derived value indexes a slice with a panicking operation and no dominating length check', loc=fn.loc(b))
+                r7.bad('%s|%s' % (short, kind), 'a container-derived value indexes a slice with a panicking operation and no dominating length / start <= end check', loc=fn.loc(b))
             else:
                 r7.ok('%s|%s' % (short, kind), loc=fn.loc(b), detail='index not container-derived (loop counter / position)')
 
@@ -400,3 +443,55 @@ def run(ctx):
             r8.ok('through-read_bytes|%s' % name)
         else:
             r8.bad('through-read_bytes|%s' % name, '%s does not read exactly %d bytes through read_bytes (reads %s, indexes up to %s)' % (name, width, n_const, worst), loc=fn.loc(0))
+
+
+# ------------------------------------------------------------------ R9 (encoder side)
+def _truncates(fn, elem):
+    out = []
+    for b, nm, t in fn.calls(lambda n: re.search(r'Vec::<.*>::truncate$', n) is not None):
+        ga = t['f'].get('ga') or ['']
+        if elem in ga[0]:
+            out.append(b)
+    return out
+
+
+def rule_r9(ctx):
+    """every container the compiler emits validates (necessary condition): when the code generator rolls back the code
+    buffer after nested statements were emitted, it rolls back their debug-map entries too"""
+    fx, cg = ctx.fx, ctx.cg
+    r9 = ctx.rule('C11.R9', 'encoder rollback: a code-buffer truncate that follows nested statement emission is paired with a debug-entry truncate on every path', floor=10, floor_what='rollback sites after nested emission')
+    pushers = set()
+    for k, rec in fx.fns.items():
+        if not k.startswith(B + 'encoder::'):
+            continue
+        fn = F(rec)
+        for b, nm, t in fn.calls(lambda n: re.search(r'Vec::<.*>::push$', n) is not None):
+            ga = t['f'].get('ga') or ['']
+            if 'DebugEntry' in ga[0]:
+                pushers.add(k)
+    if not pushers:
+        r9.bad('anchor-missing|debug-entry-push', 'no function pushing DebugEntry found in the encoder')
+        return
+    can_push = {k for k in fx.fns if k.startswith(B + 'encoder::') and (k in pushers or cg.reach([k]) & pushers)}
+    for k in sorted(fx.fns):
+        if not k.startswith(B + 'encoder::codegen::'):
+            continue
+        fn = F(fx.fns[k])
+        code_tr = _truncates(fn, 'u8')
+        if not code_tr:
+            continue
+        dbg_tr = set(_truncates(fn, 'DebugEntry'))
+        emitters = set(fn.blocks_calling(lambda n: n in can_push))
+        short = k.split('::')[-1]
+        for b in code_tr:
+            # was anything that can push debug entries executed on some path to this rollback?
+            before = any(b in fn.reach_after(e) for e in emitters)
+            if not before:
+                continue
+            r9.saw()
+            ok, path = fn.must_pass_from([b], dbg_tr) if b not in dbg_tr else (True, None)
+            if dbg_tr and ok:
+                r9.ok('rollback|%s' % short, loc=fn.loc(b))
+            else:
+                r9.bad('rollback|%s' % short, 'the code buffer is rolled back after nested statements were emitted but their debug-map entries are kept: they point past the end of the code and the emitted container fails validation (or carries a wrong debug map)',
+                       loc=fn.loc(b), witness={'path_lines': fn.path_lines(path)[-8:] if path else None})
